@@ -89,7 +89,7 @@ pub fn build_plan(property: &str, tier: &str, seed: u64, ctx: &Arc<ExecCtx>) -> 
             }
             seeded(&mut plan, "c14-random", if quick { 600 } else { 20_000 }, 14);
             plan.rule = "enumeration: every (base configuration x file the fault-free warm-up reads x applicable fault kind x placement phase {cold, warm, before-lazy-full-unicode, switch-into, switch-back-out} x repair mode {CheckRuleFiles=All + later mtime, re-pointing set_rules_dir}) as one trace, plus seeded random fault/call/repair histories; a case is non-trivial when its fault was applied and at least one API call consumed faulted bytes (or probed a removed path) or an injected read error fired; distinct = distinct trace hashes".into();
-            plan.required_probes = vec!["fault_applied", "call_consumed_fault", "error_names_file", "recovered_identical", "equals_fresh_session", "cached_table_keeps_answering"].into_iter().map(String::from).collect();
+            plan.required_probes = vec!["fault_applied", "call_consumed_fault", "error_names_file", "recovered_identical", "equals_fresh_session", "first_getter_equals_fresh_session", "cached_table_keeps_answering"].into_iter().map(String::from).collect();
             plan.exhaustive = false;
         }
         "C08" => {
@@ -118,7 +118,7 @@ pub fn build_plan(property: &str, tier: &str, seed: u64, ctx: &Arc<ExecCtx>) -> 
             }
             seeded(&mut plan, "c09-random", if quick { 2000 } else { 50_000 }, 9);
             plan.rule = "directed: MathCAT's own output fed back in the same simulated millisecond with a repeating random part (prefix collision), tokens with MathCAT ids re-wrapped, duplicate author ids, bookmarks (SSML, SAPI5) and routing at five cells over every id-bearing expression; plus seeded random histories (expressions with no/some/all/duplicate author ids and fed-back output, navigation commands, key presses, set_navigation_node, speech with bookmarks, routing, across valid and failed changes of expression) under clock faults (stalled clock, same millisecond, clock near 36^3 ms, 2001) and repeated id-prefix randomness. Invariants after every step: every element has an id, ids distinct, navigation id / bookmark marks / routed ids are ids of the MathML returned by the last successful set_mathml. non-trivial = at least one handed-out id was checked; distinct = distinct trace hashes".into();
-            plan.required_probes = vec!["ids_unique", "handed_out_id_checked", "bookmarks_seen", "routing_id_checked", "own_output_fed_back"].into_iter().map(String::from).collect();
+            plan.required_probes = vec!["ids_unique", "handed_out_id_checked", "bookmarks_seen", "routing_id_checked", "own_output_fed_back", "author_id_on_its_text"].into_iter().map(String::from).collect();
         }
         "C20" => {
             for t in props::c20::directed(!quick) {
